@@ -227,3 +227,60 @@ func verif_harness_C09_encoder_write_fault() {
 		}
 	}
 }
+
+// C09 (b3) — one of the results cannot be marshalled (a timestamp in a year
+// past 9999 makes time.Time.MarshalJSON fail; for CSV every result encodes):
+// whatever Encode reports for that result and for the ones after it, the bytes
+// handed to the writer are at every point between calls exactly the records of
+// the calls that reported success, whole and in order — a failed call leaves
+// nothing behind that a later successful call would emit in front of its own
+// record.
+//
+//verif:harness unwind=64
+func verif_harness_C09_encoder_marshal_fault() {
+	results := []Result{
+		{Attack: "a", Seq: 0, Code: 200, Timestamp: time.Unix(0, 1700000000123456789), Latency: 1500, BytesOut: 3, BytesIn: 5, Body: []byte("hello"), Method: "GET", URL: "http://x/"},
+		{Attack: "a", Seq: 1, Code: 0, Timestamp: time.Unix(0, 1700000000223456789), Latency: 7, Error: "refused", Method: "POST", URL: "http://y/"},
+		{Attack: "a", Seq: 2, Code: 204, Timestamp: time.Unix(0, 1700000000323456789), Latency: 9, Method: "GET", URL: "http://z/"},
+	}
+	bad := verif_choose("unencodable_result", len(results)+1)
+	if bad < len(results) {
+		results[bad].Timestamp = time.Date(10000, 1, 1, 0, 0, 0, 0, time.UTC)
+	}
+	csvFormat := verif_choose("format", 2) == 0
+	w := &verifRecWriter{}
+	var enc Encoder
+	if csvFormat {
+		enc = NewCSVEncoder(w)
+	} else {
+		enc = NewJSONEncoder(w)
+	}
+	var ok []int
+	for k := range results {
+		if enc.Encode(&results[k]) == nil {
+			ok = append(ok, k)
+		}
+		if !csvFormat && k == bad {
+			verif_assert(len(ok) == 0 || ok[len(ok)-1] != k, "C09.enc.unencodable-result-is-reported")
+		}
+		if k != bad && (bad > k || csvFormat) {
+			verif_assert(len(ok) > 0 && ok[len(ok)-1] == k, "C09.enc.no-error")
+		}
+		data := w.all()
+		verif_assert(len(data) == 0 || data[len(data)-1] == '\n', "C09.enc.output-ends-at-a-record-boundary")
+		var dec Decoder
+		if csvFormat {
+			dec = NewCSVDecoder(bytes.NewReader(data))
+		} else {
+			dec = NewJSONDecoder(bytes.NewReader(data))
+		}
+		for _, j := range ok {
+			var r Result
+			err := dec.Decode(&r)
+			verif_assert(err == nil && r.Seq == results[j].Seq && r.Error == results[j].Error && bytes.Equal(r.Body, results[j].Body) && r.URL == results[j].URL,
+				"C09.enc.output-is-exactly-the-successful-records")
+		}
+		var r Result
+		verif_assert(dec.Decode(&r) == io.EOF, "C09.enc.nothing-but-the-successful-records")
+	}
+}
